@@ -31,9 +31,9 @@ PROPS = {
                         "identifier bodies built by parse_mapping are assumed well formed (ids_wf)"],
     },
     "C04": {
-        "units": {"front": FRONT_LEX + FRONT_PARSE, "identifier": ["into_identifier"]},
-        "explanation": "termination (decreases on remaining chars/tokens) and panic-freedom of the tokeniser and the Pratt parser for inputs of any length",
-        "assumptions": ["conditions shorter than 2^31 tokens (i32 parenthesis depth counter)"],
+        "units": {"front": FRONT_LEX + FRONT_PARSE, "identifier": ["into_identifier"], "batch": BATCH_FNS},
+        "explanation": "termination (decreases on remaining chars/tokens) and panic-freedom of the tokeniser and the Pratt parser for inputs of any length; into_identifier cannot panic on any string; the sliced blocks of parse_mapping (value arms, list batching, wrapping) cannot panic: every expect() in them is discharged (a lone context entry exists when there is exactly one needle, ...), and a regex set that does not build is returned as an error",
+        "assumptions": ["conditions shorter than 2^31 tokens (i32 parenthesis depth counter)", "AhoCorasickBuilder::build is assumed to succeed (its expect() stays in the code); serde_yaml's own parser and the Yaml walk of parse_mapping / the serde visitor are not under contract"],
     },
     "C05": {
         "units": {"front": ["binding_power", "match_ahead", "consume_while", "tokenise"] + FRONT_PARSE + ["lemma_or_binds_tighter_than_and", "lemma_left_associative", "lemma_not_single_operand", "lemma_parentheses", "lemma_lex_unfold", "lemma_lex_step", "lemma_run", "lemma_word_is_identifier", "lemma_leading_space", "lemma_keywordish_words", "lemma_keywords"]},
